@@ -149,6 +149,21 @@ def sk_seal(hdr, inner_payloads, integ_id, sk_a, sk_e, iv, inner_raw=None, inner
     return head + icv(integ_id, sk_a, head)
 
 
+def sk_seal_clear_first(hdr, clear_payloads, inner_payloads, integ_id, sk_a, sk_e, iv):
+    """RFC 7296 3.14 only asks that SK be the LAST payload: cleartext payloads may precede it; the checksum covers everything from the header on."""
+    inner_raw = codec.enc_chain(inner_payloads)
+    inner_first = inner_payloads[0]['type'] if inner_payloads else 0
+    padlen = (16 - (len(inner_raw) + 1) % 16) % 16
+    ct = aes_cbc_encrypt(sk_e, iv, inner_raw + b'\0' * padlen + bytes([padlen]))
+    n = INTEG[integ_id][2]
+    clear = codec.enc_chain(clear_payloads, last_next=codec.SK)
+    sk_body_len = 16 + len(ct) + n
+    total = 28 + len(clear) + 4 + sk_body_len
+    first = clear_payloads[0]['type'] if clear_payloads else codec.SK
+    head = codec.enc_header(hdr, first, total) + clear + struct.pack('>BBH', inner_first, 0, 4 + sk_body_len) + iv + ct
+    return head + icv(integ_id, sk_a, head)
+
+
 def signed_octets(prf_id, init_msg, peer_nonce, sk_p, id_body):
     """RFC 7296 2.15: real message octets | other side's nonce | prf(SK_p, RestOfIDPayload)."""
     return init_msg + peer_nonce + prf(prf_id, sk_p, id_body)
